@@ -18,6 +18,7 @@ mutual
     through every node-valued field (no reference to what Accept does) -/
 def allSymbols (T : Table) : Tree → List Bytes
   | .nil => []
+  | .tnil _ => []
   | .node k strs kids => ownSymbols T k strs ++ allSymbolsKids T kids
 def allSymbolsKids (T : Table) : Kids → List Bytes
   | .none => []
@@ -51,6 +52,7 @@ mutual
 /-- nil children occur only in optional slots -/
 def nilOk : Tree → Bool
   | .nil => true
+  | .tnil _ => false     -- the parser never stores a typed nil pointer in an interface
   | .node k _ kids => nilOkKids k kids
 def nilOkKids (k : String) : Kids → Bool
   | .none => true
